@@ -96,7 +96,7 @@ def handleTables : Handler := fun input impl =>
       match impl with
       | .atom "panic" =>
         { agree := σ.panic.isSome, spec := some "[C11] scope analysis / lint pass panicked", model := toString (repr σ.panic), tags := ["panic"] }
-      | .list [.list [.list irefs, .list ivars, .list icalls], .list [.list idiags, .list idiagsV1, .list idiagsV2, .list idiagsV3, .list idiagsV4, .list idiagsHcc]] =>
+      | .list [.list [.list irefs, .list ivars, .list icalls], .list [.list idiags, .list idiagsV1, .list idiagsV2, .list idiagsV3, .list idiagsV4, .list idiagsHcc, .list idiagsV5]] =>
         let mrefs := σ.refs.toList.map (showRef σ)
         let mvars := σ.vars.toList.map (showVar σ)
         let mcalls := σ.calls.toList.map (showCall σ)
@@ -113,6 +113,9 @@ def handleTables : Handler := fun input impl =>
         -- v3 / v4: a `[config.unused_variable]` section that sets only one option; the other keeps its documented default
         let mdV3 := sortStrs ((undefinedVariable hasFields σ ++ unusedVariable hasFields argObs defaultIgnore false σ ++ shadowing defaultIgnore σ ++ mustUse isMustUse σ ++ more).map showDiag)
         let mdV4 := sortStrs ((undefinedVariable hasFields σ ++ unusedVariable hasFields argObs ignoreV1 true σ ++ shadowing defaultIgnore σ ++ mustUse isMustUse σ ++ more).map showDiag)
+        -- v5: the end-anchored pattern `^_$` for unused_variable and shadowing: only the bare `_` is ignored
+        let ignoreV5 := fun (n : String) => n == "_"
+        let mdV5 := sortStrs ((undefinedVariable hasFields σ ++ unusedVariable hasFields argObs ignoreV5 true σ ++ shadowing ignoreV5 σ ++ mustUse isMustUse σ ++ more).map showDiag)
         -- high_cyclomatic_complexity with maximum_complexity = 2: range and message of every report
         let mdHcc := sortStrs ((Selene.Lints.Cyclomatic.lint 2 chunk.block).map fun g => s!"({showSpan g.primary} {g.msg.quote})")
         let idHcc := sortStrs (idiagsHcc.filterMap fun d => match d with
@@ -120,7 +123,8 @@ def handleTables : Handler := fun input impl =>
           | _ => none)
         let hccOk := mdHcc == idHcc
         let diagsOk := hccOk && md == idk && mdV1 == sortStrs (idiagsV1.filterMap implDiagKey) && mdV2 == sortStrs (idiagsV2.filterMap implDiagKey) &&
-          mdV3 == sortStrs (idiagsV3.filterMap implDiagKey) && mdV4 == sortStrs (idiagsV4.filterMap implDiagKey)
+          mdV3 == sortStrs (idiagsV3.filterMap implDiagKey) && mdV4 == sortStrs (idiagsV4.filterMap implDiagKey) &&
+          mdV5 == sortStrs (idiagsV5.filterMap implDiagKey)
         let panicOk := σ.panic.isNone
         -- the resolution core (`Scope/Core.lean`, the machine `Props/C01.lean` proves equal to Lua's resolver):
         -- every read it records, with the local declaration it denotes, against the implementation's read references
@@ -264,6 +268,10 @@ def handleTables : Handler := fun input impl =>
         let c02e := ((spec.decls.filter fun d => d.kind != .varargParam && d.kind != .self_ && !ignoreV1 d.name).filter fun d =>
             !mentioned.contains d.tok && !unusedV4.contains d.tok && !headerVictims.contains d.tok).head?.map fun d =>
           s!"[C02] unmentioned-not-reported: with only ignore_pattern = `^x` configured, `{d.name}` declared at token {d.tok} is never mentioned again but is not reported"
+        let unusedV5 := unusedOf idiagsV5
+        let c02g := ((spec.decls.filter fun d => d.kind != .varargParam && d.kind != .self_ && d.name != "_").filter fun d =>
+            !mentioned.contains d.tok && !unusedV5.contains d.tok && !headerVictims.contains d.tok).head?.map fun d =>
+          s!"[C02] unmentioned-not-reported: with ignore_pattern = `^_$` (only the bare `_` may go unused), `{d.name}` declared at token {d.tok} is never mentioned again but is not reported"
         -- the documented `observes: write` analysis (recorded finding of the default configuration) is the same under every section
         let observedOnly := fun (t : Nat) => match σ.vars.toList.find? (·.ident = t) with
           | some v =>
@@ -272,7 +280,7 @@ def handleTables : Handler := fun input impl =>
           | none => false
         let c02f := ((unusedV3 ++ unusedV4).filter fun t => usedDecls.contains t && !unusedToks.contains t && !observedOnly t).head?.map fun t =>
           s!"[C02] used-but-reported: under a partial unused_variable section the variable declared at token {t} is reported unused although an expression uses its value"
-        let items := [c01a, c01r, c01b, c01c, c01d, c02a, c02b, c02c, c02d, c02e, c02f, c03a, c03b, c03c].filterMap id
+        let items := [c01a, c01r, c01b, c01c, c01d, c02a, c02b, c02c, c02d, c02e, c02f, c02g, c03a, c03b, c03c].filterMap id
         let tags :=
           (if spec.decls.any (fun d => d.visibleSameName.isSome) then ["shadowing-decl"] else []) ++
           (if spec.occs.any (fun o => o.binding.isSome) then ["local-read"] else []) ++
